@@ -650,7 +650,7 @@ def main():
     os.makedirs(wroot, exist_ok=True)
     for d in os.listdir(wroot):
         m = re.match(r".*-(\d+)$", d)
-        if m and not os.path.exists(f"/proc/{m.group(1)}") and d.startswith(prop + "-" + a.tier):
+        if m and not os.path.exists(f"/proc/{m.group(1)}"):   # work dir of a run that is gone (any property)
             shutil.rmtree(os.path.join(wroot, d), ignore_errors=True)
     workdir = os.path.join(wroot, f"{prop}-{a.tier}-{os.getpid()}")
     shutil.rmtree(workdir, ignore_errors=True)
@@ -790,6 +790,14 @@ def main():
         for suf in (".out", ".symtab.out", ".prep.log") + ((".cbmc.json", ".trace.json") if st == "discharged" else ()):
             try:
                 os.remove(os.path.join(workdir, h["name"] + suf))
+            except OSError:
+                pass
+        # CBMC's verbose output of a harness that hit a cap can run to gigabytes: keep it only while it is small
+        for suf in (".cbmc.json", ".trace.json"):
+            fp = os.path.join(workdir, h["name"] + suf)
+            try:
+                if os.path.getsize(fp) > (64 << 20):
+                    os.remove(fp)
             except OSError:
                 pass
 
